@@ -1,4 +1,5 @@
 import I2N.Lemmas.Graph
+import I2N.Lemmas.GraphResolve
 /-!
 # C06 — The parsed dependency graph is well formed
 
@@ -111,5 +112,81 @@ example : ({ demo with setup := demo.setup ++ [⟨1, 0, "I"⟩] } : Graph).isCyc
 /-- dropping the producer edge of the leaf is rejected by the producer clause -/
 example : ({ demo with setup := [⟨1, 2, "I"⟩, ⟨0, 2, "I"⟩], cleanup := [⟨1, 2, "I"⟩, ⟨0, 2, "I"⟩] } : Graph).checkProducers
     = false := by decide
+
+
+/-!
+# Part 2: the resolver's graphs are well formed
+
+The same clauses for `I2N.Resolve.resolve`, the specification graph the implementation's graph is compared with
+(C07): for every suite whose declared producer relation is acyclic (`RankOK`: some rank on the tests strictly
+decreases along every `get` declaration), every selection, restrictions and worker set.
+-/
+section resolver
+open I2N.Resolve
+
+/-- acyclic, for paths of any length -/
+theorem resolve_acyclic (S : Suite) (user : List (String × VLine)) (sel : List RLine) (ws : List Worker)
+    (rk : Name → Nat) (hrk : RankOK S rk) : ∀ x, ¬ RReach (resolve S user sel ws) x x := by
+  intro x hx
+  have hedge : ∀ e ∈ (resolve S user sel ws).edges, rk e.parent.test < rk e.child.test := by
+    intro e he
+    obtain ⟨w, _, hew⟩ := (mem_resolve_edges S user sel ws e).mp he
+    exact worker_edge_rank S user sel w rk hrk e hew
+  exact Nat.lt_irrefl _ (rreach_rank _ rk hedge x x hx)
+
+/-- no worker's copy contains a node twice; with distinct worker names neither does the whole graph contain a
+(worker, node) pair of one worker in another's copy -/
+theorem resolve_ids_nodup (S : Suite) (user : List (String × VLine)) (sel : List RLine) (w : Worker) :
+    ((resolveWorker S user sel w).nodes.map (·.inst)).Nodup := by
+  simp only [resolveWorker, List.map_map]
+  exact (nodes_once_aux S (allowed S user w) sel)
+where
+  nodes_once_aux (S : Suite) (allow : String → List String) (sel : List RLine) :
+      ((workerNodes S allow sel).map ((·.inst) ∘ fun i => ({ worker := w.name, inst := i } : GNode))).Nodup := by
+    have : ((·.inst) ∘ fun i => ({ worker := w.name, inst := i } : GNode)) = id := by funext i; rfl
+    rw [this, List.map_id]
+    exact nodup_dedup _
+
+/-- every dependency connects two nodes of the same worker's copy (recorded once: the resolver's single edge list
+is both the setup and the cleanup record) -/
+theorem resolve_edges_in_graph (S : Suite) (user : List (String × VLine)) (sel : List RLine) (w : Worker)
+    (e : GEdge) (he : e ∈ (resolveWorker S user sel w).edges) :
+    (∃ n ∈ (resolveWorker S user sel w).nodes, n.inst.key = e.child ∧ n.worker = e.worker) ∧
+    (∃ n ∈ (resolveWorker S user sel w).nodes, n.inst.key = e.parent ∧ n.worker = e.worker) := by
+  obtain ⟨hw, i, hi, hk, hp⟩ := (mem_worker_edges S user sel w e).mp he
+  constructor
+  · exact ⟨⟨w.name, i⟩, (mem_worker_nodes S user sel w _).mpr ⟨rfl, hi⟩, hk, hw.symm⟩
+  · obtain ⟨t, ht, hr⟩ := (mem_workerNodes S _ sel i).mp hi
+    obtain ⟨j, hj, hjk⟩ := reveal_closed S _ t i hr _ hp
+    exact ⟨⟨w.name, j⟩, (mem_worker_nodes S user sel w _).mpr
+      ⟨rfl, (mem_workerNodes S _ sel j).mpr ⟨t, ht, hj⟩⟩, hjk, hw.symm⟩
+
+/-- unique producer: a resolved node has exactly one parent per declared object slot the configuration has a
+producer for, none for the others (the parent tags are the filtered slot tags, in order), and that parent is an
+instance of a declared producer composed on the node's own variant of the object's vm — see
+`I2N.Props.C07.parents_sound` / `producer_same_variant` for the second half -/
+theorem resolve_unique_producer (S : Suite) (allow : String → List String) (f : Nat) (t : Test) (asg : Asg)
+    (i : Inst) (hi : i ∈ insts S allow (f + 1) t asg)
+    (hslots : ((instSlots t asg).map (fun s => (s.vm, s.kind))).Nodup) :
+    i.parents.map tag =
+      ((instSlots t asg).filter (fun s => !(prods S allow f asg s).isEmpty)).map (fun s => (s.vm, s.kind)) ∧
+    (i.parents.map tag).Nodup := by
+  have h := insts_parent_tags S allow f t asg i hi
+  exact ⟨h, h ▸ hslots.sublist (List.Sublist.map _ List.filter_sublist)⟩
+
+/-- one net: every node of the graph belongs to exactly the one worker whose copy it is in, and so do its edges -/
+theorem resolve_one_net (S : Suite) (user : List (String × VLine)) (sel : List RLine) (ws : List Worker)
+    (n : GNode) (hn : n ∈ (resolve S user sel ws).nodes) : ∃ w ∈ ws, n.worker = w.name := by
+  obtain ⟨w, hw, hnw⟩ := (mem_resolve_nodes S user sel ws n).mp hn
+  exact ⟨w, hw, ((mem_worker_nodes S user sel w n).mp hnw).1⟩
+
+/-- non-vacuity: the demo suite (a creation test, a two-producer group, a dependant of the whole group, a leaf) has
+a rank, so all of the above applies to it -/
+example : RankOK Demo.demo Demo.rk := by unfold RankOK; decide
+example : ∀ x, ¬ RReach (resolve Demo.demo [] [⟨false, [[["leaves"]]]⟩] [⟨"net1", []⟩, ⟨"net2", []⟩]) x x :=
+  resolve_acyclic _ _ _ _ Demo.rk (by unfold RankOK; decide)
+example : (resolve Demo.demo [] [⟨false, [[["leaves"]]]⟩] [⟨"net1", []⟩, ⟨"net2", []⟩]).nodes.length = 28 := by decide
+
+end resolver
 
 end I2N.Props.C06
